@@ -113,10 +113,14 @@ def feature(p):
 
 
 # --------------------------------------------------------------------------------------------------------------------
-def core(rng, max_paths, max_states=4000, want_failure=None, **kw):
-    """(Program, reference-result) from gen/mcprog.py, with at most max_paths maximal interleavings."""
-    p, _, ref = mcprog.sized(rng, max_states=max_states, max_paths=max_paths, want_failure=want_failure, **kw)
-    return p, ref
+def core(rng, max_paths, max_states=4000, want_failure=None, clean=False, **kw):
+    """(Program, reference-result) from gen/mcprog.py, with at most max_paths maximal interleavings.
+    clean: demand a program without reachable deadlock or assertion failure and with >= 2 terminal outcomes."""
+    for _ in range(400):
+        p, _, ref = mcprog.sized(rng, max_states=max_states, max_paths=max_paths, want_failure=False if clean else want_failure, **kw)
+        if not clean or (not ref["deadlock"] and not ref["assert"] and len(ref["end"]) >= 2):
+            return p, ref
+    raise RuntimeError("core generator could not produce a failure-free program")
 
 
 def static_bound(p):
@@ -235,9 +239,35 @@ def _comm_actor(rng, ext, me, nmbox, budget, role, with_assert):
     return ops
 
 
-def comm(rng, ext, bound, tries=400, with_assert=None, min_bound=3):
-    """Program of the asynchronous-communication population whose static bound is within [min_bound, bound]."""
+def _balanced(p):
+    """Every mailbox gets as many sends as receives (necessary for a run without a communication left pending)."""
+    cnt = {}
+    for _, ops in p.actors:
+        for k, a, _ in ops:
+            if k == "s":
+                cnt[a] = cnt.get(a, 0) + 1
+            elif k == "r":
+                cnt[a] = cnt.get(a, 0) - 1
+    return all(v == 0 for v in cnt.values())
+
+
+def _any_over_two(p, op):
+    """Some wait_any / test_any is issued by an actor that created at least two communications before it."""
+    for _, ops in p.actors:
+        n = 0
+        for k, _, _ in ops:
+            if k in "sr":
+                n += 1
+            elif k == op and n >= 2:
+                return True
+    return False
+
+
+def comm(rng, ext, bound, tries=5000, with_assert=None, min_bound=20, balanced=None):
+    """Program of the asynchronous-communication population whose static bound is within [min_bound, bound].
+    balanced: demand as many sends as receives per mailbox (default: two programs out of three)."""
     assert ext in COMM_EXT
+    want_balanced = (rng.random() < 0.67) if balanced is None else balanced
     for _ in range(tries):
         p = Program()
         nact = rng.choice([2, 2, 2, 3])
@@ -258,6 +288,10 @@ def comm(rng, ext, bound, tries=400, with_assert=None, min_bound=3):
         used = ops_used(p)
         need = {"wait": "c", "test": "t", "waitany": "a", "testany": "y", "iprobe": "p"}[ext]
         if need not in used or not (used & set("s")) or not (used & set("r")):
+            continue
+        if want_balanced and not _balanced(p):
+            continue
+        if ext in ("waitany", "testany") and not _any_over_two(p, need):
             continue
         b = static_bound(p)
         if min_bound <= b <= bound:
